@@ -18,6 +18,8 @@ pub struct Case {
     /// size measure (operands) and whether the case is non-trivial by the stated rule
     pub size: usize,
     pub nontrivial: bool,
+    /// false: the case is decided by the oracle alone (too large to evaluate the model on it inside Coq)
+    pub model: bool,
 }
 #[derive(Default)]
 pub struct CaseSet { pub tables: Vec<Vec<OpSpec>>, pub cases: Vec<Case> }
@@ -36,7 +38,7 @@ impl CaseSet {
         let (_, obs) = observe(&prog, &queries);
         let (oracle_ok, oracle_note) = oracle(&obs);
         let tbi = self.table_index(tb);
-        self.cases.push(Case { tb: tbi, prog, queries, obs, note, family, oracle_ok, oracle_note, size, nontrivial: size >= 2 });
+        self.cases.push(Case { tb: tbi, prog, queries, obs, note, family, oracle_ok, oracle_note, size, nontrivial: size >= 2, model: true });
         self.cases.len() - 1
     }
     pub fn write(&self, out_dir: &str, shard_size: usize) -> std::io::Result<()> {
@@ -51,6 +53,7 @@ impl CaseSet {
             // round robin: case i lives in shard i % n_shards at position i / n_shards (balances sizes)
             let chunk: Vec<&Case> = self.cases.iter().enumerate().filter(|(i, _)| i % n_shards == k).map(|(_, c)| c).collect();
             let items: Vec<String> = chunk.iter().map(|c| {
+                if !c.model && std::env::var("VERIF_MODEL_ALL").is_err() { return format!("({}%nat, {}, [])", c.tb, g_prog(&Prog::Flat("1".into()))) }
                 let qs: Vec<String> = c.queries.iter().zip(&c.obs).map(|(q, o)| format!("({}, {})", g_query(q), g_obs(o))).collect();
                 format!("({}%nat, {}, [{}])", c.tb, g_prog(&c.prog), qs.join("; "))
             }).collect();
